@@ -45,14 +45,78 @@ class GCtx(SymCtx):
     def __init__(self, F, K, env, mode):
         SymCtx.__init__(self, F, K, env)
         self.mode = mode            # 'kernel' | 'ctor'
+        self.maxdefs = {}
+        self.callsite = {}          # callee body id -> (caller body, call terminator, tupled?) : the one calling context being judged
 
     def inner_atom(self, key, what):
         a = ("inner", key, what)
         if a not in self.info:
-            self.info[a] = {"lo": Poly.const(0), "hi": None}
+            self.info[a] = {"lo": Poly.const(1 if what == "len" else 0), "hi": None}
         return a
 
+    def _arg_sites(self, b, i):
+        cs = self.callsite.get(b.id)
+        if cs is None:
+            return SymCtx._arg_sites(self, b, i)
+        cb, t, tupled = cs
+        if tupled:
+            tup = cb.root(t["args"][1]) if len(t["args"]) > 1 else None
+            if tup and tup[0] == "agg" and i - 2 < len(tup[3]["r"]["ops"]):
+                return [(cb, tup[3]["r"]["ops"][i - 2])]
+            return [(cb, None)]
+        if i - 1 < len(t["args"]):
+            return [(cb, t["args"][i - 1])]
+        return [(cb, None)]
+
+    def getter_atom(self, b, c):
+        """`self.method()`: evaluate the callee (closures and helpers merged in) to a polynomial over self's fields,
+        slice-field lengths and inner-transform getters; fall back to an opaque atom."""
+        from .inline import inlined, any_local_pred
+        tgt = self.F.bodies.get(c.get("res") or c["id"])
+        if tgt is None or ("g", tgt.id) in self._busy:
+            return SymCtx.getter_atom(self, b, c)
+        self._busy.add(("g", tgt.id))
+        try:
+            inl = inlined(self.F, tgt, any_local_pred)
+            gv = self.symg(inl, inl.expr({"p": [0]}, rich=True))
+            if len(gv) == 1 and not gv[0][0]:
+                return gv[0][1]
+            raise Undecided("guarded getter")
+        except (Undecided, RecursionError):
+            return SymCtx.getter_atom(self, b, c)
+        finally:
+            self._busy.discard(("g", tgt.id))
+
     def sym(self, b, e, depth=0):
+        if isinstance(e, tuple) and e[0] == "bin" and e[1] == "Shl":
+            try:
+                c = SymCtx.sym(self, b, e[3], depth + 1).const_value()
+            except Undecided:
+                c = None
+            if c is None:
+                try:
+                    rhs = self.sym(b, e[3], depth + 1)
+                    a = ("pow2", rhs.key())
+                    if a not in self.info:
+                        self.info[a] = {"lo": Poly.const(1), "hi": None}
+                    return self.sym(b, e[2], depth + 1) * Poly.atom(a)
+                except Undecided:
+                    pass
+        if isinstance(e, tuple) and e[0] == "call" and len(e[2]) == 2 and (e[1].endswith("cmp::max") or e[1].endswith("Ord::max") or e[1].endswith("cmp::min") or e[1].endswith("Ord::min")):
+            # in a condition: an atom m = max(a, b) with  m >= a, m >= b, m <= a + b  (min: m <= a, m <= b)
+            is_max = "max" in e[1].rsplit("::", 1)[-1]
+            pa = self.sym(b, e[2][0], depth + 1)
+            pb = self.sym(b, e[2][1], depth + 1)
+            a = ("max" if is_max else "min", pa.key(), pb.key())
+            if a not in self.info:
+                self.info[a] = {"lo": Poly.const(0), "hi": None}
+                self.maxdefs[a] = (pa, pb, is_max)
+                m = Poly.atom(a)
+                if is_max:
+                    self.facts += [m - pa, m - pb, pa + pb - m]
+                else:
+                    self.facts += [pa - m, pb - m]
+            return Poly.atom(a)
         if isinstance(e, tuple) and e[0] == "call" and e[1] in INNER_METHODS and len(e[2]) == 1:
             recv = _strip_deref(e[2][0])
             what = INNER_METHODS[e[1]]
@@ -160,6 +224,7 @@ def _struct_cases(F, K, adt):
     for (cb, n) in _adt_literals(F).get(adt, []):
         ctx = GCtx(F, K, {}, "ctor")
         fields = {}
+        slens = {}
         rename = {}      # ('ctor', param) / ('ctorlocal', local) -> field path
         scalars = {}     # ctorparam atom -> field path holding exactly that parameter
 
@@ -175,6 +240,8 @@ def _struct_cases(F, K, adt):
                         fields[path] = ctx.symg(cb, cb.expr(op, rich=True))
                     except (Undecided, RecursionError):
                         fields[path] = None
+                elif ts.startswith("std::boxed::Box<[") or ts.startswith("std::vec::Vec<"):
+                    slens[path] = _slice_len_value(F, ctx, cb, op)
                 elif "dyn Fft<" in ts and ts.startswith("std::sync::Arc<"):
                     r = cb.root(op)
                     if r[0] == "param":
@@ -210,14 +277,45 @@ def _struct_cases(F, K, adt):
                     p = p.subst(a, Poly.atom(("self", scalars[a], "field")))
             return p
 
+        try:
+            lbi = next(i for i, bb in enumerate(cb.blocks) if any(x is n for x in bb["s"]))
+            lit_conds, _ok = ctx.conditions(cb, lbi)
+        except (StopIteration, Undecided, RecursionError):
+            lit_conds = []
         canon = {}
-        for path, gv in fields.items():
+        for path, gv in list(fields.items()) + [(("len",) + k, v) for k, v in slens.items()]:
             if gv is None:
                 canon[path] = None
             else:
                 canon[path] = [([(canon_poly(l), op, canon_poly(r)) for (l, op, r) in conds], canon_poly(p)) for (conds, p) in gv]
+        canon["__asserts__"] = [(canon_poly(l), op, canon_poly(r)) for (l, op, r) in lit_conds]
+        canon["__facts__"] = [canon_poly(f) for f in ctx.facts]
+        canon["__maxdefs__"] = {a: (canon_poly(pa), canon_poly(pb), mx) for a, (pa, pb, mx) in ctx.maxdefs.items()}
         out.append((canon, cb, n))
     return out
+
+
+def _slice_len_value(F, ctx, cb, op):
+    """Guarded length of the slice stored in a Box<[T]> / Vec<T> field: `vec![x; n].into_boxed_slice()` -> n."""
+    e = cb.expr(op, rich=True)
+    for _ in range(6):
+        if e[0] == "call" and e[2] and (e[1].endswith("into_boxed_slice") or e[1].endswith("Into::into") or e[1].endswith("From::from")):
+            e = e[2][0]
+            continue
+        break
+    if e[0] == "multi":
+        defs = cb.whole_defs(e[1])
+        calls = [n for (bi, si, n) in defs if si == "t"]
+        if len(calls) == 1:
+            c = F.callee_of(calls[0])
+            if c and c["p"].endswith("from_elem") and len(calls[0]["args"]) == 2:
+                e = ("call", c["p"], [cb.expr(a, rich=True) for a in calls[0]["args"]], [], "", 0)
+    if e[0] == "call" and e[1].endswith("from_elem") and len(e[2]) == 2:
+        try:
+            return ctx.symg(cb, e[2][1])
+        except (Undecided, RecursionError):
+            return None
+    return None
 
 
 def r_suffice(F, cfg):
@@ -255,13 +353,13 @@ def r_suffice(F, cfg):
                     if scr:
                         T.walk(cb, {("param", i) for i in scr}, {}, kind, adt)
         seen_sites = set()
-        for (ek, ro, ik, where, fnname, kb, kt) in T.sites.get(adt, []):
+        for (ek, ro, ik, where, fnname, kb, kt, chain) in T.sites.get(adt, []):
             key = (ek, where, ik)
             if key in seen_sites:
                 continue
             seen_sites.add(key)
             n_hand += 1
-            verdict, detail = _judge(F, K, adt, kb, kt, ro, ik, cases)
+            verdict, detail = _judge(F, K, adt, kb, kt, ro, ik, cases, chain)
             tag = "%s:%s:%s" % (adt.rsplit("::", 1)[-1], ek, ik)
             if verdict == "proved":
                 n_proved += 1
@@ -284,12 +382,14 @@ def r_suffice(F, cfg):
     return R
 
 
-def _judge(F, K, adt, b, t, ro, ik, cases):
+def _judge(F, K, adt, b, t, ro, ik, cases, chain=()):
     if ro[0] != "self":
         return "undecided", "inner transform is not a field of self"
     m = F.callee_of(t)["p"].rsplit("::", 1)[-1]
     kind, data_i, scr_i = PROCESS[m]
     ctx = GCtx(F, K, {}, "kernel")
+    for (gid, cb_, t_, tupled) in chain:
+        ctx.callsite[gid] = (cb_, t_, tupled)
     try:
         ctx.side = []
         alts = ctx.symleng(b, t["args"][scr_i])
@@ -307,12 +407,20 @@ def _judge(F, K, adt, b, t, ro, ik, cases):
         for (aconds, alen) in alts:
             # self-field atoms mentioned by the length / conditions
             polys = [alen] + [x for c in (aconds + site_conds) for x in (c[0], c[2])]
-            used = sorted({a for p in polys for a in p.atoms() if a[0] == "self" and a[2] == "field"}, key=repr)
+            used = sorted({a for p in polys for a in p.atoms() if a[0] == "self" and a[2] in ("field", "len")}, key=repr)
             choices = []
+            unknown = any(a[0] == "self" and a[2] == "call" for p in polys for a in p.atoms())
             for a in used:
-                gv = fields.get(tuple(a[1]))
+                if a[2] == "field":
+                    gv = fields.get(tuple(a[1]))
+                else:
+                    gv = None
+                    for k, v in fields.items():
+                        if isinstance(k, tuple) and k and k[0] == "len" and tuple(a[1])[:len(k) - 1] == k[1:]:
+                            gv = v
                 if gv is None:
                     choices.append([None])
+                    unknown = True
                 else:
                     choices.append(gv)
             if len(used) > 4:
@@ -321,7 +429,7 @@ def _judge(F, K, adt, b, t, ro, ik, cases):
                 n_cases += 1
                 if n_cases > 96:
                     return "undecided", "too many cases"
-                conds = list(aconds) + list(site_conds)
+                conds = list(aconds) + list(site_conds) + list(fields.get("__asserts__", []))
                 sub = {}
                 for a, gvc in zip(used, combo):
                     if gvc is None:
@@ -339,7 +447,9 @@ def _judge(F, K, adt, b, t, ro, ik, cases):
                 c2.info = dict(ctx.info)
                 c2.expand = dict(ctx.expand)
                 c2.qr = dict(ctx.qr)
-                c2.facts = list(ctx.facts)
+                c2.facts = list(ctx.facts) + [ap(f) for f in fields.get("__facts__", [])]
+                mdefs = dict(ctx.maxdefs)
+                mdefs.update({a: (ap(pa), ap(pb), mx) for a, (pa, pb, mx) in fields.get("__maxdefs__", {}).items()})
                 c2.eqs = list(ctx.eqs)
                 c2.side_for_goal = ()
                 for p in [goal] + [x for c in cc for x in (c[0], c[2])]:
@@ -348,7 +458,7 @@ def _judge(F, K, adt, b, t, ro, ik, cases):
                 if c2.prove(goal, cc):
                     continue
                 all_proved = False
-                w = _witness(goal, cc)
+                w = None if unknown else _witness(goal, cc, mdefs)
                 if w is not None and witness is None:
                     witness = w
     if all_proved:
@@ -358,21 +468,37 @@ def _judge(F, K, adt, b, t, ro, ik, cases):
     return "undecided", "no proof and no witness in the small model (%d cases)" % n_cases
 
 
-def _witness(goal, conds):
+def _witness(goal, conds, maxdefs=None):
     """A small assignment of the atoms under which all conditions hold and goal < 0; only when every atom is an
     independent quantity of the model (own fields, inner lengths and requirements)."""
+    maxdefs = maxdefs or {}
     atoms = set(goal.atoms())
     for (l, op, r) in conds:
         atoms |= l.atoms() | r.atoms()
-    if any(a[0] not in ("self", "inner", "ctorparam") for a in atoms):
+    derived = [a for a in atoms if a[0] in ("max", "min")]
+    for a in derived:
+        if a not in maxdefs:
+            return None
+        atoms |= maxdefs[a][0].atoms() | maxdefs[a][1].atoms()
+    derived = [a for a in atoms if a[0] in ("max", "min")]
+    if any(a not in maxdefs for a in derived):
+        return None
+    atoms = {a for a in atoms if a[0] not in ("max", "min")}
+    if any(a[0] not in ("inner", "pow2") for a in atoms):
         return None
     atoms = sorted(atoms, key=repr)
     if len(atoms) > 6:
         return None
-    grid = [0, 1, 2, 3, 5, 8, 13, 40]
-    for vals in product(grid, repeat=len(atoms)):
+    grid0 = [0, 1, 2, 3, 5, 8, 13, 40]
+    grids = [[v for v in grid0 if v >= 1] if (a[0] == "inner" and a[2] == "len") or a[0] == "pow2" else grid0 for a in atoms]
+    for vals in product(*grids):
         env = dict(zip(atoms, vals))
         try:
+            for _ in range(3):
+                for a in derived:
+                    pa, pb, mx = maxdefs[a]
+                    if all(x in env for x in pa.atoms() | pb.atoms()):
+                        env[a] = max(pa.eval(env), pb.eval(env)) if mx else min(pa.eval(env), pb.eval(env))
             ok = True
             for (l, op, r) in conds:
                 lv, rv = l.eval(env), r.eval(env)
@@ -380,7 +506,7 @@ def _witness(goal, conds):
                     ok = False
                     break
             if ok and goal.eval(env) < 0:
-                return {_wname(a): v for a, v in env.items()}
+                return {_wname(a): v for a, v in env.items() if a[0] not in ("max", "min")}
         except KeyError:
             return None
     return None
